@@ -470,7 +470,7 @@ class Cid(object):
 
         :param cutplace.checks.AbstractCheck check_to_add: the check to add
         """
-        assert check_to_add.descrption not in self._check_name_to_check_map
+        assert check_to_add.description not in self._check_name_to_check_map
 
         self._check_name_to_check_map[check_to_add.description] = check_to_add
         self._check_names.append(check_to_add.description)
